@@ -48,6 +48,35 @@ RELATIONAL = ('TableIR', 'MatrixIR', 'BlockMatrixIR')
 BINDER_API = ('bindings', 'agg_bindings', 'scan_bindings')
 
 
+class _Diag:
+    """Diagnostics that are *not* armed as rules: they concern (a) environments, which IR.compute_type consults only when
+    deep_typecheck=True (Ref/Recur._compute_type) - no caller in the repository, its tests or its configuration enables it - or
+    (b) failures that make the front end raise before any IR is sent.  Neither can make a reported type differ from the type of
+    the IR that is sent, so they are printed as INFO and counted, never reported as violations."""
+
+    def __init__(self, ctx: Ctx):
+        self.ctx = ctx
+        self.checked: Dict[str, int] = {}
+        self.flagged: List[str] = []
+
+    def ok(self, rule: str, construct: str, detail=None, nontrivial: bool = True) -> None:
+        self.checked[rule] = self.checked.get(rule, 0) + 1
+
+    def bad(self, rule: str, construct: str, message: str, file: str = '', line: int = 0, extra=None) -> None:
+        self.checked[rule] = self.checked.get(rule, 0) + 1
+        self.flagged.append(f'{rule} {construct}')
+        self.ctx.info(f'[diagnostic {rule}, not a violation] {construct}: {message}')
+
+    def check(self, cond, rule: str, construct: str, message: str, file: str = '', line: int = 0, detail=None, extra=None) -> bool:
+        (self.ok if cond else self.bad)(rule, construct, message if not cond else detail)
+        return bool(cond)
+
+    def finish(self, label: str) -> None:
+        for r, n in sorted(self.checked.items()):
+            self.ctx.unit(f'diagnostic_{label}_{r}', n)
+        self.ctx.extra_cov.setdefault('diagnostics_flagged', []).extend(self.flagged)
+
+
 def _fmt(tokens) -> str:
     return '{' + ', '.join(sorted(tokens)) + '}'
 
@@ -115,6 +144,7 @@ def _switches(t: ic.Table, cls: ic.Cls, call: ic.TypingCall) -> bool:
 
 
 def check_typing(ctx: Ctx, t: ic.Table, envs) -> None:
+    d = _Diag(ctx)
     n_methods = 0
     for cls in t.ir_classes():
         tc = ic.typing_calls(t, cls)
@@ -140,29 +170,29 @@ def check_typing(ctx: Ctx, t: ic.Table, envs) -> None:
             if call.flag is not None and not (isinstance(call.flag, ast.Name) and call.flag.id == 'deep_typecheck'):
                 probs.append(f'passes `{pf.nsrc(call.flag)}` where the deep_typecheck flag is expected')
             if probs:
-                ctx.bad('R3', cons, f'`{pf.nsrc(call.node)}` {"; ".join(probs)}: the child is typed with a flag as its environment and the requested '
+                d.bad('R3', cons, f'`{pf.nsrc(call.node)}` {"; ".join(probs)}: the child is typed with a flag as its environment and the requested '
                         f'deep check is not propagated', owner.mod.path, line)
             else:
-                ctx.ok('R3', cons, call.meth)
+                d.ok('R3', cons, call.meth)
             if call.meth != 'compute_type':
                 ctx.info(f'{cls.name}._compute_type calls {recv}.{call.meth}(...) directly (result not cached in the child; not a typing difference)')
             if call.env is None:
                 continue
             # R1 environments
             if cls.name in ABSTRACT:
-                ctx.ok('R1', cons, {'abstract': ABSTRACT[cls.name]}, nontrivial=False)
+                d.ok('R1', cons, {'abstract': ABSTRACT[cls.name]}, nontrivial=False)
                 continue
             want_ev, want_ag = _required(t, cls, call.pos, call.layout)
             p1, wider1 = _cmp_env(ic.named(call.env), want_ev, envs)
             p2, wider2 = _cmp_env(ic.named(call.agg or frozenset()), want_ag, envs)
             if p1:
-                ctx.bad('R1', cons, f'child `{recv}` {p1} (evaluation scope; `{pf.nsrc(call.node.args[0])}`): with deep_typecheck=True a reference to a '
+                d.bad('R1', cons, f'child `{recv}` {p1} (evaluation scope; `{pf.nsrc(call.node.args[0])}`): with deep_typecheck=True a reference to a '
                         f'bound name fails `assert self.name in env`, or a name bound for another child is accepted', owner.mod.path, line)
             elif p2:
-                ctx.bad('R1', cons + '::agg', f'child `{recv}` {p2} (aggregation/scan scope; `{pf.nsrc(call.node.args[1])}`): with deep_typecheck=True an '
+                d.bad('R1', cons + '::agg', f'child `{recv}` {p2} (aggregation/scan scope; `{pf.nsrc(call.node.args[1])}`): with deep_typecheck=True an '
                         f'aggregated reference to the bound name fails `assert self.name in env`', owner.mod.path, line)
             else:
-                ctx.ok('R1', cons, {'eval': sorted(ic.named(call.env)), 'agg': sorted(ic.named(call.agg or frozenset()))})
+                d.ok('R1', cons, {'eval': sorted(ic.named(call.env)), 'agg': sorted(ic.named(call.agg or frozenset()))})
                 if wider1 or wider2:
                     ctx.info(f'{cls.name}: the renderer binds a wider implicit environment for `{recv}` than _compute_type types it under '
                              f'(typing {sorted(ic.named(call.env))}, bound {sorted(want_ev)})')
@@ -181,8 +211,9 @@ def check_typing(ctx: Ctx, t: ic.Table, envs) -> None:
                     ok = not env_from_agg
                     msg = (f'child `{recv}` is not declared to use the aggregation/scan context but is typed in agg_env (`{pf.nsrc(call.node)}`): '
                            f'typing and rendering disagree on the scope of this child')
-                ctx.check(ok, 'R2', cons, msg, owner.mod.path, line, detail={'switches': sw})
+                d.check(ok, 'R2', cons, msg, owner.mod.path, line, detail={'switches': sw})
     ctx.unit('compute_type_methods', n_methods)
+    d.finish('typing')
     # ABSTRACT table: really never constructed
     for name in ABSTRACT:
         for m in t.modules.values():
@@ -192,14 +223,17 @@ def check_typing(ctx: Ctx, t: ic.Table, envs) -> None:
 
 
 def check_env_methods(ctx: Ctx, envs) -> None:
+    d = _Diag(ctx)
     for kind, methods in envs.items():
         for name, (k1, k2, cons) in methods.items():
-            ctx.check(k1 == k2, 'R4', cons, f'{name}() returns keys {_fmt(k1)} with types but {_fmt(k2)} with default_value: the renderer (default_value) and '
+            d.check(k1 == k2, 'R4', cons, f'{name}() returns keys {_fmt(k1)} with types but {_fmt(k2)} with default_value: the renderer (default_value) and '
                       f'the type checker see different implicit variables')
         order = [('global_env', 'row_env'), ('global_env', 'col_env'), ('row_env', 'entry_env'), ('col_env', 'entry_env')]
         for a, b in order:
             if a in methods and b in methods:
-                ctx.check(methods[a][0] <= methods[b][0], 'R4', f'{methods[b][2]}::contains {a}', f'{b} keys {_fmt(methods[b][0])} do not contain {a} keys {_fmt(methods[a][0])}')
+                d.check(methods[a][0] <= methods[b][0], 'R4', f'{methods[b][2]}::contains {a}', f'{b} keys {_fmt(methods[b][0])} do not contain {a} keys {_fmt(methods[a][0])}')
+
+    d.finish('env')
 
 
 # ---------------------------------------------------------------------------------------------------------------------------
